@@ -266,8 +266,15 @@ const CORPUS: &[(&str, &str, &str, &str)] = &[
     ("seed-C06-1-hasanta-vowel-then-backspace", "probhat", "10110000000", "/u⌫;)␛/u⌫k␛"),
 ];
 
-fn run_corpus(env: &Env, rep: &mut Report, t: &mut Trace, lay: &Layouts) {
-    for (name, layout, bits, script) in CORPUS {
+fn run_corpus(env: &Env, rep: &mut Report, t: &mut Trace, lay: &Layouts, si: usize, nshards: usize) {
+    // the cases are spread over the shards (the long-word ones are slow to replay on the Lean model: one per trace, not all in one)
+    // the long-word cases (time budget, rank arithmetic far from the dictionary) are about the IMPLEMENTATION returning, and in time; replaying
+    // 50-character words on the Lean model costs a minute per case, and stream c07 already ties such words to the model: not traced here
+    let mut untraced = Trace::create(&env.scratch.join(format!("c01-corpus-untraced-{}.log", si)), &env.tsv);
+    for (ci, (name, layout, bits, script)) in CORPUS.iter().enumerate() {
+        if ci % nshards != si { continue; }
+        let heavy = env.quick() && (name.starts_with("far-hit-") || name.starts_with("time-"));
+        let t: &mut Trace = if heavy { &mut untraced } else { &mut *t };
         let lp = match *layout { "phonetic" => PHONETIC.to_string(), "s2" => lay.s2.clone(), "s1" => lay.s1.clone(), _ => lay.probhat.clone() };
         let mut b = 0u32; for (i, c) in bits.chars().enumerate() { if c == '1' { b |= 1 << i; } }
         let opts = Opts::from_bits(b);
@@ -384,7 +391,8 @@ fn data_words(env: &Env, rep: &mut Report, t: &mut Trace, si: usize, nshards: us
     let mut words: Vec<String> = pools.ac_keys.clone();
     for sk in &pools.suffixes { words.push(format!("kaj{}", sk)); }
     words.extend(pools.emoticons.iter().cloned());
-    words.extend(pools.emoji_names.iter().cloned());
+    // (quick tier: every third emoji name — their values are not fed to the transliterator; the thorough tier types all of them)
+    words.extend(pools.emoji_names.iter().enumerate().filter(|(i, _)| !env.quick() || i % 3 == 0).map(|(_, n)| n.clone()));
     for (i, w) in words.iter().enumerate() {
         if i % nshards != si || w.is_empty() || w.chars().count() > 24 || !w.chars().all(crate::code_ok) { continue; }
         s.clear_events();
@@ -410,12 +418,12 @@ pub fn run(env: &Env) -> Report {
         let mut t = env.trace(&format!("c01.{}", si));
         register_layouts(&mut t, env, &lay);
         let mut rng = Rng::new(seed.wrapping_mul(7919) ^ (si as u64) << 20);
-        if si == 0 { run_corpus(env, &mut rep, &mut t, &lay); }
+        run_corpus(env, &mut rep, &mut t, &lay, si, nshards);
         for h in 0..nhist {
             let l = if h % 10 == 9 { hlen * 4 } else { hlen };
             history(env, &mut rep, &mut t, &lay, &mut rng, &format!("c01-{}-{}", si, h), l);
         }
-        systematic(env, &mut rep, &mut t, &lay, si, nshards, if env.quick() { 6 } else { 32 }, seed);
+        systematic(env, &mut rep, &mut t, &lay, si, nshards, if env.quick() { 4 } else { 32 }, seed);
         data_words(env, &mut rep, &mut t, si, nshards);
         selection_pass(env, &mut rep, &mut t, si, nshards);
         learn_retype_pass(env, &mut rep, &mut t, si, nshards);
